@@ -76,6 +76,7 @@ type vsimSim struct {
 	sched    *vsimTape
 	mapTape  *vsimTape
 	selTape  *vsimTape
+	noPerm   bool   // select / map orders are the identity (twin runs must not depend on how many draws happened)
 	yieldPPM uint32 // probability (per million) of a voluntary yield at a lock acquisition
 
 	lastLib    string
@@ -510,6 +511,9 @@ func vsimPerm(n int) []int {
 		return p
 	}
 	s.token("select")
+	if s.noPerm {
+		return p
+	}
 	for i := 0; i < n-1; i++ {
 		j := i + s.selTape.intn(n-i)
 		p[i], p[j] = p[j], p[i]
@@ -645,6 +649,9 @@ func vsimMapKeys[K cmp.Ordered, V any](m map[K]V) []K {
 		return keys
 	}
 	s.token("maprange")
+	if s.noPerm {
+		return keys
+	}
 	n := len(keys)
 	for i := 0; i < n-1; i++ {
 		j := i + s.mapTape.intn(n-i)
